@@ -167,12 +167,49 @@ def special_docs():
     return out
 
 
+def huge_docs(quick=True):
+    """Content sections of 8 MiB and more (beyond any plausible single-read
+    block), never an exact multiple of a power of two, always followed by
+    further sections."""
+    M = 1 << 20
+    sizes = [9 * M + 3] if quick else [8 * M + 1, 9 * M + 3, 12 * M + 77,
+                                       16 * M + 5, 33 * M + 1]
+    out = []
+    for size in sizes:
+        body = (b'+' + b'x' * 70 + b'\n') * (size // 72 + 1)
+        f1 = {'encoding': None, 'meta': {'obj': {'path': 'big'},
+                                         'encoding': None},
+              'diff': {'data': body[:size - 1] + b'\n', 'encoding': None,
+                       'line_endings': None, 'type': None}}
+        f2 = {'encoding': None, 'meta': {'obj': {'path': 'after'},
+                                         'encoding': None},
+              'diff': {'data': b'--- a\n+++ b\n@@ -1 +1 @@\n-a\n+b\n',
+                       'encoding': None, 'line_endings': None, 'type': None}}
+        out.append({'encoding': 'utf-8', 'changes': [
+            {'encoding': None, 'files': [f1, f2]},
+            {'encoding': None, 'files': [dict(f2)]}]})
+    if not quick:
+        txt = ('p' * 63 + '\n') * ((9 * M) // 64)
+        for enc, indent in (('utf-8', 0), ('utf-16', 0), ('utf-8', 2)):
+            pre = {'text': txt[:(9 * M) // (2 if enc == 'utf-16' else 1)],
+                   'indent': indent, 'encoding': None, 'line_endings': None,
+                   'mimetype': None, 'explicit': True}
+            out.append({'encoding': enc, 'preamble': pre, 'changes': [
+                {'encoding': None, 'files': [
+                    {'encoding': None, 'meta': {'obj': {'path': 'after'},
+                                                'encoding': None}}]}]})
+    return out
+
+
 def run(ctx):
     obs = ctx.obs
     rng = ctx.rng
     for i, d in enumerate(special_docs()):
         if ctx.mine(i):
             check_case(d, obs, 'special_sizes')
+    for i, d in enumerate(huge_docs(ctx.quick)):
+        if ctx.mine(i + 7):
+            check_case(d, obs, 'huge_sections')
     # systematic sweep (deterministic, sharded)
     sw = sweep_cases()
     vias = ('own', 'change', 'main')
